@@ -4,6 +4,7 @@ import (
 	"fmt"
 	"io"
 	"strings"
+	"text/tabwriter"
 
 	"github.com/zeromicro/go-zero/tools/goctl/pkg/parser/api/token"
 	"github.com/zeromicro/go-zero/tools/goctl/util"
@@ -134,6 +135,12 @@ func (t *TokenNode) Format(prefix ...string) string {
 	}
 
 	var tokenText = p + t.Token.Text
+	if t.Token.Type == token.STRING || t.Token.Type == token.RAW_STRING {
+		// a tab inside a string literal belongs to the literal, not to the layout
+		if idx := strings.IndexAny(t.Token.Text, "\"`"); idx >= 0 {
+			tokenText = p + t.Token.Text[:idx] + escapeTabs(t.Token.Text[idx:])
+		}
+	}
 	var validLeadingCommentGroup CommentGroup
 	for _, e := range t.LeadingCommentGroup {
 		if util.IsEmptyStringOrWhiteSpace(e.Comment.Text) {
@@ -231,6 +238,16 @@ func SyntaxError(pos token.Position, format string, v ...interface{}) error {
 // DuplicateStmtError represents a duplicate statement error.
 func DuplicateStmtError(pos token.Position, msg string) error {
 	return fmt.Errorf("duplicate declaration: %s %s", pos.String(), msg)
+}
+
+// escapeTabs protects the tabs of s from the tabwriter (see tabwriter.Escape); the outermost
+// writer strips the escape characters again.
+func escapeTabs(s string) string {
+	if !strings.Contains(s, "\t") {
+		return s
+	}
+	esc := string([]byte{tabwriter.Escape})
+	return strings.ReplaceAll(s, "\t", esc+"\t"+esc)
 }
 
 func peekOne(list []string) string {
